@@ -520,6 +520,14 @@ func (ex *Exec) contractBuiltin(p *Path, name string, call *ast.CallExpr) ([]Val
 			return one(Value{okT, boolT})
 		}
 		return one(Value{decT, t})
+	case "isFresh":
+		// isFresh(x): the object was allocated during this call of the unit (allocation clock: entry = 0)
+		v := arg(0)
+		ref := v.T
+		if ex.c.SortOf(v.Ty) == "Iface" {
+			ref = "(iref " + v.T + ")"
+		}
+		return one(Value{"(>= (" + ex.birthFun() + " " + ref + ") 0)", boolT})
 	case "errmsg":
 		return one(Value{ex.errMsg(arg(0)), strT})
 	case "isNil":
